@@ -47,11 +47,11 @@ Proof.
   destruct ind as [[n|]|]; cbn [flat_map canon_chunk app]; unfold canon_text; try rewrite ws_repeat by exact Hi; reflexivity.
 Qed.
 
-Definition canon_str (s : str) : list citem := flat_map canon_text (splitlines s).
+Definition canon_str (s : str) : list citem := flat_map canon_text (split_crlf s).
 
 Lemma canon_string f L s : ws_fmt f -> canon (string_chunks f L s) = canon_str s.
 Proof.
-  intros Hf. unfold string_chunks, canon_str. destruct (splitlines s) as [|l0 ls]; [reflexivity|].
+  intros Hf. unfold string_chunks, canon_str. destruct (split_crlf s) as [|l0 ls]; [reflexivity|].
   cbn [flat_map canon canon_chunk]. f_equal.
   induction ls as [|l ls IH]; [reflexivity|]. cbn [flat_map].
   fold (canon (line_chunks f L l ++ flat_map (line_chunks f L) ls)).
@@ -69,12 +69,13 @@ Proof.
 Qed.
 
 (* ---------------------------------------------------------------- lstrip does not change the content *)
-Lemma lb_space ch : is_linebreak ch = true -> is_py_space ch = true.
+Lemma cr_space : is_py_space c_cr = true. Proof. vm_compute. reflexivity. Qed.
+Lemma nl_space : is_py_space c_nl = true. Proof. vm_compute. reflexivity. Qed.
+Definition is_brk (ch : char) : bool := ((ch =? c_cr) || (ch =? c_nl))%N.
+Lemma lb_space ch : is_brk ch = true -> is_py_space ch = true.
 Proof.
-  unfold is_linebreak, is_py_space. intros H. apply existsb_exists in H. destruct H as [x [Hin E]].
-  apply N.eqb_eq in E. subst x.
-  assert (G : forallb (fun x => existsb (N.eqb x) py_whitespace) py_linebreaks = true) by (vm_compute; reflexivity).
-  rewrite forallb_forall in G. apply G, Hin.
+  unfold is_brk. intros H. apply orb_true_iff in H. destruct H as [H|H]; apply N.eqb_eq in H; subst ch;
+    [apply cr_space|apply nl_space].
 Qed.
 
 Lemma ws_rev s : ws (rev s) = ws s.
@@ -89,13 +90,13 @@ Qed.
 Lemma canon_text_ws_app w l : ws w = true -> canon_text (w ++ l) = canon_text l.
 Proof. intros H. unfold canon_text. rewrite ws_app, H, lstrip_ws_app by exact H. reflexivity. Qed.
 
-Lemma splitlines_aux_acc : forall s acc cur, acc <> [] ->
-  exists hd tl, splitlines_aux s acc = hd :: tl /\ splitlines_aux s (acc ++ cur) = (rev cur ++ hd) :: tl.
+Lemma split_crlf_aux_acc : forall s acc cur, acc <> [] ->
+  exists hd tl, split_crlf_aux s acc = hd :: tl /\ split_crlf_aux s (acc ++ cur) = (rev cur ++ hd) :: tl.
 Proof.
-  induction s as [|c s' IH]; intros acc cur Hne; cbn [splitlines_aux].
+  induction s as [|c s' IH]; intros acc cur Hne; cbn [split_crlf_aux].
   - destruct acc as [|a acc]; [congruence|]. cbn [app]. exists (rev (a :: acc)), []. split; [reflexivity|].
     f_equal. change (a :: acc ++ cur) with ((a :: acc) ++ cur). apply rev_app_distr.
-  - destruct (is_linebreak c).
+  - fold (is_brk c). destruct (is_brk c).
     + destruct s' as [|c2 s''].
       * exists (rev acc), []. split; [reflexivity|]. f_equal. apply rev_app_distr.
       * destruct ((c =? c_cr)%N && (c2 =? c_nl)%N); eexists (rev acc), _; (split; [reflexivity|]); f_equal; apply rev_app_distr.
@@ -103,36 +104,36 @@ Proof.
 Qed.
 
 Lemma canon_lstrip_aux : forall n s cur, length s <= n -> ws cur = true ->
-  flat_map canon_text (splitlines_aux s cur) = flat_map canon_text (splitlines_aux (lstrip s) []).
+  flat_map canon_text (split_crlf_aux s cur) = flat_map canon_text (split_crlf_aux (lstrip s) []).
 Proof.
   induction n as [|n IH]; intros s cur Hn Hc; destruct s as [|c s']; cbn [length] in Hn; try lia.
-  - cbn [splitlines_aux]. destruct cur; [reflexivity|]. cbn [flat_map]. unfold canon_text. rewrite ws_rev, Hc. reflexivity.
-  - cbn [splitlines_aux]. destruct cur; [reflexivity|]. cbn [flat_map]. unfold canon_text. rewrite ws_rev, Hc. reflexivity.
+  - cbn [split_crlf_aux]. destruct cur; [reflexivity|]. cbn [flat_map]. unfold canon_text. rewrite ws_rev, Hc. reflexivity.
+  - cbn [split_crlf_aux]. destruct cur; [reflexivity|]. cbn [flat_map]. unfold canon_text. rewrite ws_rev, Hc. reflexivity.
   - assert (Hcur : canon_text (rev cur) = []) by (unfold canon_text; rewrite ws_rev, Hc; reflexivity).
     destruct (is_py_space c) eqn:Hsp.
     + assert (El : lstrip (c :: s') = lstrip s') by (unfold lstrip; cbn [lstrip_by]; rewrite Hsp; reflexivity).
-      rewrite El. cbn [splitlines_aux]. destruct (is_linebreak c) eqn:Hlb.
+      rewrite El. cbn [split_crlf_aux]. fold (is_brk c). destruct (is_brk c) eqn:Hlb.
       * destruct s' as [|c2 s''].
         -- cbn [flat_map]. rewrite Hcur. reflexivity.
         -- destruct ((c =? c_cr)%N && (c2 =? c_nl)%N) eqn:Ecr.
            ++ cbn [flat_map]. rewrite Hcur. cbn [app]. apply andb_true_iff in Ecr. destruct Ecr as [_ E2].
               apply N.eqb_eq in E2. subst c2.
               assert (El2 : lstrip (c_nl :: s'') = lstrip s'').
-              { unfold lstrip. cbn [lstrip_by]. rewrite (lb_space _ linebreak_nl). reflexivity. }
+              { unfold lstrip. cbn [lstrip_by]. rewrite nl_space. reflexivity. }
               rewrite El2. apply IH; [cbn [length] in Hn; lia|reflexivity].
            ++ cbn [flat_map]. rewrite Hcur. cbn [app]. apply IH; [lia|reflexivity].
       * apply IH; [lia|]. cbn [ws forallb]. rewrite Hsp. exact Hc.
-    + assert (Hlb : is_linebreak c = false).
-      { destruct (is_linebreak c) eqn:E; [|reflexivity]. rewrite (lb_space _ E) in Hsp. discriminate. }
+    + assert (Hlb : is_brk c = false).
+      { destruct (is_brk c) eqn:E; [|reflexivity]. rewrite (lb_space _ E) in Hsp. discriminate. }
       assert (El : lstrip (c :: s') = c :: s') by (unfold lstrip; cbn [lstrip_by]; rewrite Hsp; reflexivity).
-      rewrite El. cbn [splitlines_aux]. rewrite Hlb.
-      destruct (splitlines_aux_acc s' [c] cur) as [hd [tl [E1 E2]]]; [discriminate|].
+      rewrite El. cbn [split_crlf_aux]. fold (is_brk c). rewrite Hlb.
+      destruct (split_crlf_aux_acc s' [c] cur) as [hd [tl [E1 E2]]]; [discriminate|].
       cbn [app] in E2. rewrite E1, E2. cbn [flat_map]. rewrite canon_text_ws_app by (rewrite ws_rev; exact Hc). reflexivity.
 Qed.
 
 Lemma canon_str_lstrip s : canon_str (lstrip s) = canon_str s.
 Proof.
-  unfold canon_str, splitlines. symmetry. apply (canon_lstrip_aux (length s) s [] (le_n _) eq_refl).
+  unfold canon_str, split_crlf. symmetry. apply (canon_lstrip_aux (length s) s [] (le_n _) eq_refl).
 Qed.
 
 (* ---------------------------------------------------------------- content after each primitive *)
@@ -546,7 +547,7 @@ Qed.
 
 Lemma canon_str_text s : Forall is_text (canon_str s).
 Proof.
-  unfold canon_str. induction (splitlines s) as [|l ls IH]; [constructor|]. cbn [flat_map].
+  unfold canon_str. induction (split_crlf s) as [|l ls IH]; [constructor|]. cbn [flat_map].
   apply Forall_app. split; [|exact IH]. unfold canon_text. destruct (ws l); constructor; [exact I|constructor].
 Qed.
 Lemma canon_plain_text F v : plain_tokens v = true -> Forall is_text (canon_tokens F v).
